@@ -1,6 +1,7 @@
 // C05 - path-pattern matching follows the documented pattern language.
 // Exhaustive small scope: every pattern of a grammar up to a size bound x every address over an
 // 11-letter alphabet up to length 4 (thorough 5) x 9 type strings; oracle = refmatch.h (three-valued).
+#include <cerrno>
 #include <rtosc/rtosc.h>
 #include <set>
 #include "common.h"
@@ -89,7 +90,8 @@ static void check(const std::string &pat, const refmatch::Pattern &rp, const std
     Verdict v = !refpath ? refmatch::MUST_NOT : tv[ti];
     bool got = rtosc_match(pat.c_str(), g_msg, nullptr);
     // the optional out-parameter must not change the verdict
-    { const char *pe = nullptr; bool got2 = rtosc_match(pat.c_str(), g_msg, &pe);
+    { const char *pe = nullptr; errno = ERANGE;      // ... nor may whatever an earlier library call left in errno
+      bool got2 = rtosc_match(pat.c_str(), g_msg, &pe); errno = 0;
       if(got2 != got) vp::violation("verdict-depends-on-path_end|rtosc_match|" + features(pat), "p=" + pat + "|a=" + addr + "|t=" + TYPES[ti], "pattern '" + pat + "' address '" + addr + "': " + (got ? "true" : "false") + " with path_end == NULL, " + (got2 ? "true" : "false") + " with a pointer"); }
     vp::transition(2);
     if(v == refmatch::DONT_CARE) { ++g_dc; return; }
